@@ -6,6 +6,8 @@ import (
 	stded "crypto/ed25519"
 	"fmt"
 	"math/big"
+	"sync"
+	"sync/atomic"
 
 	"github.com/wollac/iota-crypto-demo/pkg/ed25519"
 
@@ -19,19 +21,22 @@ func init() {
 		Builds:   []string{"default", "386"}, // the 386 build runs 1/12 of the random classes on a 32-bit target
 		Scale386: 12,
 		Parallel: 4, // cases are judged on 4 goroutines per shard: the library functions are stateless, shared state inside them shows up as wrong verdicts
-		Rule: "(public key, message, signature) triples in classes: honest (crypto/ed25519 signatures, message length 0..2500 and around 2^9..2^13), bitflip (1-2 flipped bits), s_plus_jL (S+jL for every j with S+jL < 2^256), torsion (A=[s]B+T, R=[r]B+T' for all 8x8 torsion pairs, S=r+k*s with k over the bytes as given, and the same with S perturbed), smallorder (every encoding of every small-order point incl. non-canonical ones as A and as R, with S=0, S=k*s, S=jL, S=1), noncanonical_y (all 38 encodings with y>=p), s_high (canonical S in the sliver [2^252, L), built from a small-order A and R=[S]B+T', with structured limbs, and S just at/above L), s_limbs (S over the whole 256-bit range built from 64/32/16/8-bit chunks that are 0, 1, all-ones, half-range, the order's chunk, next to it, or the order's chunk plus half the range; small-order A and R=[S mod L]B+T', so that S<L alone decides), undecodable A/R, length (signature lengths 0..70), random, and sequence (2..6 consecutive calls on the related keys A and -A, which differ in the sign bit only, with signatures of either, torsion-shifted keys and undecodable R in between: every verdict must equal the predicate of that call alone; the inputs of a sequence are passed in buffers that are overwritten in place between the calls, and some steps first call Sign with a well-formed or a mismatched (seed of one key, public half of another) private key and verify the result). " +
+		Rule: "(public key, message, signature) triples in classes: honest (crypto/ed25519 signatures, message length 0..2500 and around 2^9..2^13), bitflip (1-2 flipped bits), s_plus_jL (S+jL for every j with S+jL < 2^256), torsion (A=[s]B+T, R=[r]B+T' for all 8x8 torsion pairs, S=r+k*s with k over the bytes as given, and the same with S perturbed), smallorder (every encoding of every small-order point incl. non-canonical ones as A and as R, with S=0, S=k*s, S=jL, S=1), noncanonical_y (all 38 encodings with y>=p), s_high (canonical S in the sliver [2^252, L), built from a small-order A and R=[S]B+T', with structured limbs, and S just at/above L), s_limbs (S over the whole 256-bit range built from 64/32/16/8-bit chunks that are 0, 1, all-ones, half-range, the order's chunk, next to it, or the order's chunk plus half the range; small-order A and R=[S mod L]B+T', so that S<L alone decides), r_related_to_key (R == A, the honest signature with nonce r = a; R == -A; R == A+T; with the S that satisfies the equation and the one with the sign of r flipped), identity_r (the neutral element in every encoding as R under an honest key, with S = k*a, random S, S in {0,1,2}), undecodable A/R, length (signature lengths 0..70), random, concurrent (8 goroutines verify their own message/signature pairs, valid and not, under one key, all passing the same PublicKey slice; expectations from the model), and sequence (2..6 consecutive calls on the related keys A and -A, which differ in the sign bit only, with signatures of either, torsion-shifted keys and undecodable R in between: every verdict must equal the predicate of that call alone; the inputs of a sequence are passed in buffers that are overwritten in place between the calls, and some steps first call Sign with a well-formed or a mismatched (seed of one key, public half of another) private key and verify the result). " +
 			"Every Verify call is judged two-sidedly against the big-integer ZIP-215 model and one-sidedly against crypto/ed25519 (std accept => accept). Non-trivial: every distinct triple outside class random.",
 		Assumptions: []string{"SHA-512 of the Go standard library", "math/big", "the ZIP-215 model in harness/oracle/ed (self-tested against RFC 8032 vectors, crypto/ed25519 and the known small-order encodings)"},
 		SelfTest:    ed.SelfTest,
 		Gen:         gen,
 		Judge:       judge,
 		Render:      render,
-		Required:    []string{"s_limbs model=accept", "s_limbs model=reject", "s_high model=accept", "s_high model=reject", "sequence: sign-then-verify steps", "model=accept impl=accept", "model=reject impl=reject", "std=accept", "sequence step model=accept", "sequence step model=reject"},
+		Required:    []string{"r_related_to_key model=accept", "r_related_to_key model=reject", "identity_r model=accept", "identity_r model=reject", "concurrent executions on one shared key slice", "s_limbs model=accept", "s_limbs model=reject", "s_high model=accept", "s_high model=reject", "sequence: sign-then-verify steps", "model=accept impl=accept", "model=reject impl=reject", "std=accept", "sequence step model=accept", "sequence step model=reject"},
 	})
 }
 
 func render(class string, key []byte) interface{} {
 	p := fw.Unpack(key)
+	if class == "concurrent" {
+		return map[string]interface{}{"seed": fw.GetU64(p[0]), "scenario": "8 goroutines verify different (message, signature) pairs under one key, all passing the same PublicKey slice"}
+	}
 	if class == "sequence" {
 		var calls []map[string]string
 		for i := 0; i+2 < len(p); i += 3 {
@@ -81,6 +86,10 @@ func judge(class string, key []byte, o *fw.Obs) {
 		}
 		return
 	}
+	if class == "concurrent" {
+		judgeConcurrent(fw.GetU64(p[0]), o)
+		return
+	}
 	pub, msg, sig := p[0], p[1], p[2]
 	if class != "random" {
 		o.Nontrivial()
@@ -90,7 +99,7 @@ func judge(class string, key []byte, o *fw.Obs) {
 	// the three inputs are windows into larger buffers (a wire message pk||sig||msg): they and the memory
 	// behind them must be what they were after the call
 	var sp fw.SpareSet
-	pubIn, msgIn, sigIn := sp.Of("public key", pub, 96), fw.NilIfEmpty(sp.Of("message", msg, 96), byte(len(key))), fw.NilIfEmpty(sp.Of("signature", sig, 96), byte(len(key)>>1))
+	pubIn, msgIn, sigIn := sp.Of("public key", pub, 96), fw.NilIfEmpty(sp.Of("message", msg, 96), selByte(pub, sig)), fw.NilIfEmpty(sp.Of("signature", sig, 96), selByte(sig, pub)>>1)
 	if !o.Try("ed25519.Verify", func() { got = ed25519.Verify(ed25519.PublicKey(pubIn), msgIn, sigIn) }) {
 		return
 	}
@@ -112,6 +121,80 @@ func judge(class string, key []byte, o *fw.Obs) {
 		if !got {
 			o.Fail("std", "crypto/ed25519 accepts this signature but Verify rejects it")
 		}
+	}
+}
+
+// selByte derives a selector bit from the contents of the case (an empty message is passed as nil in half of the cases).
+func selByte(a, b []byte) byte {
+	var x byte
+	for _, c := range a {
+		x ^= c
+	}
+	if len(b) > 0 {
+		x ^= b[len(b)-1] >> 3
+	}
+	return x
+}
+
+// judgeConcurrent: 8 goroutines verify different (message, signature) pairs under ONE key, all of them
+// passing the same PublicKey slice (one backing array), as a server holding a peer's key does. Expectations
+// come from the model, computed beforehand.
+func judgeConcurrent(seed uint64, o *fw.Obs) {
+	o.Nontrivial()
+	r := fw.SubRng(int64(seed), "c01-concurrent")
+	sd := make([]byte, 32)
+	r.Read(sd)
+	sk := stded.NewKeyFromSeed(sd)
+	shared := append([]byte(nil), sk[32:]...)
+	keyCopy := append([]byte(nil), shared...)
+	type item struct {
+		msg, sig []byte
+		want     bool
+	}
+	const workers, rounds = 8, 40
+	items := make([]item, workers)
+	for i := range items {
+		msg := make([]byte, r.Intn(200))
+		r.Read(msg)
+		sig := stded.Sign(sk, msg)
+		if i%2 == 1 {
+			sig[32+r.Intn(31)] ^= 1 << uint(r.Intn(8))
+		}
+		items[i] = item{msg, sig, ed.VerifyZIP215(keyCopy, msg, sig)}
+	}
+	var wg sync.WaitGroup
+	var bad atomic.Int64
+	var first atomic.Value
+	panicked := make([]interface{}, workers)
+	for w := 0; w < workers; w++ {
+		wg.Add(1)
+		go func(w int) {
+			defer wg.Done()
+			defer func() { panicked[w] = recover() }()
+			it := items[w]
+			for k := 0; k < rounds; k++ {
+				if got := ed25519.Verify(ed25519.PublicKey(shared), it.msg, it.sig); got != it.want {
+					if bad.Add(1) == 1 {
+						first.Store(fmt.Sprintf("Verify(%x, %x, %x) = %v, the ZIP-215 predicate is %v", keyCopy, it.msg, it.sig, got, it.want))
+					}
+				}
+			}
+		}(w)
+	}
+	wg.Wait()
+	for _, pv := range panicked {
+		if pv != nil {
+			o.Fail("panic", "panic in a concurrent Verify call: %v", pv)
+			return
+		}
+	}
+	o.Count("concurrent executions on one shared key slice")
+	if !bytes.Equal(shared, keyCopy) {
+		o.Fail("mutation", "the public key slice shared by the 8 goroutines was %x before and is %x after the calls", keyCopy, shared)
+		return
+	}
+	if n := bad.Load(); n > 0 {
+		o.Fail("concurrent", "with 8 goroutines verifying under one shared PublicKey slice, %d of %d verdicts were wrong; first: %s", n, workers*rounds, first.Load())
 	}
 }
 
@@ -385,6 +468,58 @@ func gen(g *fw.Gen) {
 		}
 	}
 
+	// R related to the key: R == A (the honest signature with nonce r = a), R == -A, R == A + T; and R the
+	// neutral element in every encoding under an honest key. The equation decides, not the coincidence.
+	for n := g.ShareOf(400, 20000); n > 0; n-- {
+		a := randScalar(g)
+		Apt := ed.BaseMul(a)
+		A := Apt.Encode()
+		msg := randMsg(g)
+		var Rpt *ed.Point
+		switch n % 4 {
+		case 0, 1:
+			Rpt = Apt
+		case 2:
+			Rpt = Apt.Neg()
+		default:
+			Rpt = Apt.Add(tors[1+g.Rng.Intn(7)])
+		}
+		R := Rpt.Encode()
+		k := ed.HashModL(R, A, msg)
+		ka := new(big.Int).Mul(k, a)
+		// S = r + k*a with r the discrete log of R up to torsion: a, -a, a
+		r := new(big.Int).Set(a)
+		if n%4 == 2 {
+			r.Neg(r)
+		}
+		good := new(big.Int).Add(ka, r)
+		good.Mod(good, ed.L)
+		bad := new(big.Int).Sub(ka, r)
+		bad.Mod(bad, ed.L)
+		emit(g, "r_related_to_key", A, msg, sigOf(R, good))
+		emit(g, "r_related_to_key", A, msg, sigOf(R, bad))
+		// the neutral element as R, in each of its encodings: valid exactly for S = k*a (mod L)
+		for _, e := range ed.Encodings(ed.Identity()) {
+			k0 := ed.HashModL(e, A, msg)
+			s0 := new(big.Int).Mul(k0, a)
+			s0.Mod(s0, ed.L)
+			switch g.Rng.Intn(3) {
+			case 0:
+				emit(g, "identity_r", A, msg, sigOf(e, s0))
+			case 1:
+				emit(g, "identity_r", A, msg, sigOf(e, randScalar(g)))
+			default:
+				emit(g, "identity_r", A, msg, sigOf(e, big.NewInt(int64(g.Rng.Intn(3)))))
+			}
+		}
+	}
+	// after those: honest signatures again (a call that disturbed package state shows up here)
+	for n := g.ShareOf(200, 10000); n > 0; n-- {
+		sk := stded.NewKeyFromSeed(g.Bytes(32))
+		msg := randMsg(g)
+		emit(g, "honest", []byte(sk[32:]), msg, stded.Sign(sk, msg))
+	}
+
 	// sequences of calls on related keys (A, -A, A+T, undecodable in between): the verdict of a call
 	// must not depend on earlier calls (caches, pooled state)
 	for n := g.ShareOf(400, 20000); n > 0; n-- {
@@ -439,6 +574,9 @@ func gen(g *fw.Gen) {
 		g.Emit("sequence", fw.Pack(parts...))
 	}
 
+	for n := g.ShareOf(32, 1600); n > 0; n-- {
+		g.Emit("concurrent", fw.Pack(fw.U64(g.Rng.Uint64())))
+	}
 	// (h) random triples
 	for n := g.ShareOf(2000, 100000); n > 0; n-- {
 		sig := g.Bytes(64)
